@@ -517,7 +517,7 @@ func TestVF_C06(t *testing.T) {
 		"{open, recv@0, recv@mid, recv@n, block@0} per store when several fail); the injected open/Recv error has one of 9 shapes (plain, errors.Wrap(io.EOF), fmt %w io.EOF, io.ErrUnexpectedEOF, gRPC Unavailable/DeadlineExceeded/Canceled, context.Canceled/DeadlineExceeded): " +
 		"all shapes at every point when one store fails, rotating when several fail; x strategy {ABORT, WARN, PartialResponseDisabled} x {eager, lazy buf 1, lazy buf 20} x frame timer {off, 5s}; " +
 		"plus 16 directed real-time scenarios (lazy, buffer 1/2, frame timeout 1s, WARN): a peer whose series sort first delivers a frame every 0.6s (or one frame, then stalls into its timeout) so the merge is stalled > timeout while the " +
-		"healthy store (6/10 series, every Recv immediate, honours its stream context) waits for a buffer slot; judged only if every Recv of the healthy fake took <= 0.5s and a 10ms heartbeat never took > 0.25s; " +
+		"healthy store (6/10 series, every Recv immediate, honours its stream context) waits for a buffer slot; judged only if every Recv of the healthy fake took <= 0.5s and a 10ms heartbeat never took > 0.25s (else repeated, at most 3 attempts, then discarded and counted); run after the enumeration; " +
 		"oracle on the error/warnings/series returned by the real ProxyStore.Series: abort/disabled => error; warn => nil error, >=1 warning naming every store observed to fail, every series+chunk of every store not observed to fail; " +
 		"distinct = the case tuple; non-trivial = the fake store actually returned the injected error")
 	r.Assume("a store 'fails' iff the fake client returned a non-EOF error from Series() or Recv (observed, not planned); healthy fakes never fail, they ignore the stream context")
@@ -540,34 +540,6 @@ func TestVF_C06(t *testing.T) {
 	r.Extra("enumerated_cases", len(cases))
 	r.Require(int64(len(cases)), len(cases)*9/10)
 	r.Exhaustive(true)
-
-	// directed real-time scenarios run next to the enumeration (they mostly sleep)
-	stalls := vfc06StallList()
-	var swg sync.WaitGroup
-	for j, sc := range stalls {
-		ci := len(cases) + j
-		if !r.Want(ci) {
-			continue
-		}
-		swg.Add(1)
-		go func(sc vfc06Stall) {
-			defer swg.Done()
-			r.Guard(ci, "proxy-series-stalled-merge", sc.key(), func() {
-				fp, what, discarded, w := vfc06RunStall(sc)
-				if discarded {
-					r.Count("stalled_merge_scenarios_discarded_machine_too_slow", 1)
-					return
-				}
-				r.Eval(1)
-				r.Distinct(sc.key())
-				r.Count("stalled_merge_scenarios_judged", 1)
-				if fp != "" {
-					r.Violation(ci, fp, what+" ["+sc.key()+"]", w)
-				}
-			})
-		}(sc)
-	}
-	defer swg.Wait()
 
 	var wg sync.WaitGroup
 	idx := make(chan int)
@@ -615,6 +587,42 @@ func TestVF_C06(t *testing.T) {
 	}
 	close(idx)
 	wg.Wait()
+
+	// directed real-time scenarios: run after the enumeration (quiet process), all at once (they mostly sleep);
+	// a scenario outside the timing bracket is repeated, at most 3 attempts
+	stalls := vfc06StallList()
+	var swg sync.WaitGroup
+	for j, sc := range stalls {
+		ci := len(cases) + j
+		if !r.Want(ci) {
+			continue
+		}
+		swg.Add(1)
+		go func(sc vfc06Stall) {
+			defer swg.Done()
+			r.Guard(ci, "proxy-series-stalled-merge", sc.key(), func() {
+				var fp, what string
+				var discarded bool
+				var w map[string]any
+				for attempt := 0; attempt < 3; attempt++ {
+					if fp, what, discarded, w = vfc06RunStall(sc); !discarded {
+						break
+					}
+					r.Count("stalled_merge_attempts_outside_timing_bracket", 1)
+				}
+				if discarded {
+					r.Count("stalled_merge_scenarios_discarded_machine_too_slow", 1)
+					return
+				}
+				r.Eval(1)
+				r.Distinct(sc.key())
+				r.Count("stalled_merge_scenarios_judged", 1)
+				if fp != "" {
+					r.Violation(ci, fp, what+" ["+sc.key()+"]", w)
+				}
+			})
+		}(sc)
+	}
 	swg.Wait()
 	if !r.Replaying() && r.Counter("stalled_merge_scenarios_judged") < int64(len(stalls))/2 {
 		r.Inconclusive(fmt.Sprintf("only %d of %d stalled-merge scenarios could be judged (machine too slow for the timing bracket)", r.Counter("stalled_merge_scenarios_judged"), len(stalls)))
